@@ -687,3 +687,32 @@ Lemma season_mean_doy_witness :
   let sow_doy := 278%Z in let harvest_doy := 213%Z in
   @div R RNum 150 (ofZ (harvest_doy - sow_doy)) < 0.
 Proof. cbv zeta. rsimp. change (278)%Z with 278%Z. replace (IZR (213 - 278)) with (-65) by (rewrite minus_IZR; lra). lra. Qed.
+
+(* ==================================================================== *)
+(* stage days of the crop record                                         *)
+
+Section StageDays.
+  Context {T : Type} {NT : Num T}.
+
+  Definition dev_clean (s : stage_st (T:=T)) : Prop := forall j, (st_k s < j)%nat -> nth j (st_dev s) 0%Z = 0%Z.
+
+  Lemma stage_step_dev_clean (x : stage_in (T:=T)) (s : stage_st (T:=T)) : dev_clean s -> dev_clean (stage_step x s).
+  Proof.
+    intros H. unfold stage_step, stage_inc, stage_advance. cbn [st_k st_sum st_dev].
+    destruct (_ && _ && (Z.of_nat (st_k s) + 1 <? si_nrentw x)%Z); cbn [st_k st_sum st_dev];
+      destruct (_ && _); intros j Hj; cbn [st_k st_dev st_sum st_dates st_phyllo] in *.
+    - rewrite nth_upd_other by lia. apply H. lia.
+    - rewrite nth_upd_other by lia. apply H. lia.
+    - apply H. exact Hj.
+    - apply H. exact Hj.
+  Qed.
+
+  (* After the per-crop reset at sowing (all stage days 0) the stage day of every stage the crop has NOT reached is still 0
+     after any sequence of days: a crop record never shows a stage day this crop did not produce *)
+  Lemma stage_days_lemma (xs : list (stage_in (T:=T))) (s : stage_st (T:=T)) :
+    dev_clean s -> dev_clean (stage_run xs s).
+  Proof.
+    revert s; induction xs as [|x r IH]; intros s H; cbn [stage_run]; [exact H|].
+    apply IH. apply stage_step_dev_clean. exact H.
+  Qed.
+End StageDays.
